@@ -102,10 +102,14 @@ func (c *Ctx) Mine(i int) bool { return c.NShards <= 1 || i%c.NShards == c.Shard
 
 // Want reports whether the case with this key must run (replay filter + journal).
 func (c *Ctx) Want(key string) bool {
-	if c.Only != "" && c.Only != key {
-		return false
+	if c.Only == "" || c.Only == key {
+		return true
 	}
-	return true
+	// "prefix/*" selects a family of cases (diagnostic use)
+	if strings.HasSuffix(c.Only, "*") && strings.HasPrefix(key, strings.TrimSuffix(c.Only, "*")) {
+		return true
+	}
+	return false
 }
 
 // Begin journals the case key before it executes so that a dead worker can be attributed.
